@@ -19,7 +19,7 @@ def build():
     U.opaque('Base64', 'Clone')
     U.opaque('Hash', 'Clone, Copy, PartialEq, Eq')
     U.opaque('Serial', 'Clone, Copy, PartialEq, Eq')
-    U.opaque('Time', 'Clone, Copy, PartialEq, Eq')
+    U.opaque('Time', 'Clone, Copy, PartialEq, Eq, PartialOrd')
     U.opaque('Validity', 'Clone, Copy, PartialEq, Eq')
     U.opaque('KeyIdentifier', 'Clone, Copy, PartialEq, Eq, Hash')
     for t in ['ResourceSet', 'RequestResourceLimit', 'Name', 'CsrInfo', 'RepositoryContact', 'PublishedManifest', 'PublishedCrl',
@@ -51,13 +51,21 @@ impl Time { pub fn now() -> Time { unimplemented!() } }
 pub uninterp spec fn name_of_key(k: KeyIdentifier, ext: Seq<char>) -> ObjectName;
 pub uninterp spec fn hash_of(b: Base64) -> Hash;
 pub uninterp spec fn not_after(v: Validity) -> Time;
-/// 'the object has expired' at the time remove_expired reads the clock (time is an input)
-pub uninterp spec fn expired(t: Time) -> bool;
+/// the clock is an input: what Time::now() answers when remove_expired reads it
+pub uninterp spec fn clock() -> Time;
+pub uninterp spec fn time_cmp(a: Time, b: Time) -> Option<std::cmp::Ordering>;
+impl vstd::std_specs::cmp::PartialOrdSpecImpl for Time {
+    open spec fn obeys_partial_cmp_spec() -> bool { true }
+    open spec fn partial_cmp_spec(&self, other: &Time) -> Option<std::cmp::Ordering> { time_cmp(*self, *other) }
+}
+pub assume_specification [<Time as PartialOrd>::partial_cmp] (a: &Time, b: &Time) -> (r: Option<std::cmp::Ordering>) ensures r == time_cmp(*a, *b);
+/// 'the object has expired': its expiry time is not later than the clock
+pub open spec fn expired(t: Time) -> bool { time_cmp(t, clock()) != Some(std::cmp::Ordering::Greater) }
 pub assume_specification [ObjectName::from_key] (ki: &KeyIdentifier, extension: &str) -> (r: ObjectName)
     ensures r == name_of_key(*ki, extension@);
 pub assume_specification [Base64::to_hash] (b: &Base64) -> (r: Hash) ensures r == hash_of(*b);
 pub assume_specification [Validity::not_after] (v: &Validity) -> (r: Time) ensures r == not_after(*v);
-pub assume_specification [Time::now] () -> (r: Time);
+pub assume_specification [Time::now] () -> (r: Time) ensures r == clock();
 pub uninterp spec fn aspa_name(c: Asn) -> ObjectName;
 pub uninterp spec fn bgpsec_name(a: Asn, k: KeyIdentifier) -> ObjectName;
 pub uninterp spec fn pk_ki(k: PublicKey) -> KeyIdentifier;
@@ -126,7 +134,10 @@ impl<T> PublishedItem<T> {
         }''')]),
     ])
     U.impl('impl Revocations', [
-        # iter().partition(closure): outside engine V; contract ASSUMED here, checked bounded by engine K (k_c03_remove_expired)
+        # the predicate handed to iter().partition (closure body lifted verbatim, R15): an entry is kept exactly while it has not expired
+        U.closure_fn(CA, 'Revocations', 'remove_expired', 0, 'vx_keep_revocation', '(r: &&Revocation) -> (b: bool)',
+                     ensures=[('kept_exactly_while_not_expired', 'b == !expired(r.expires)')]),
+        # iter().partition itself is outside engine V; the set-level contract of the function is ASSUMED (its predicate is verified above)
         U.fn(CA, 'Revocations', 'remove_expired', external_body=True, ensures=[
             ('keeps_unexpired', 'forall |id: (Serial, Time)| old(self).has(id) && !expired(id.1) ==> final(self).has(id)'),
             ('adds_nothing', 'forall |id: (Serial, Time)| final(self).has(id) ==> old(self).has(id)')]),
